@@ -150,4 +150,39 @@ def XVal.ofO : Option Rat → XVal
 def XVal.isInf : XVal → Bool
   | .pinf => true | .ninf => true | _ => false
 
+/-! ### `a - (y + z) = (a - y) - z`, `a / (y * z) = (a / y) / z` on NaN-absorbing values with division by zero = NaN:
+why a list on the RIGHT of `sub_` / `div_` (reduced with `add_` / `mul_` first) still gives the left fold (C08-A3) -/
+
+theorem appO_sub_add (a y z : Option Rat) : Op.sub.appO a (Op.add.appO y z) = Op.sub.appO (Op.sub.appO a y) z := by
+  cases a <;> cases y <;> cases z <;> simp [Op.appO, Op.app] <;> grind
+
+theorem appO_div_mul (a y z : Option Rat) : Op.div.appO a (Op.mul.appO y z) = Op.div.appO (Op.div.appO a y) z := by
+  cases a <;> cases y <;> cases z <;> simp [Op.appO, Op.app]
+  rename_i a y z
+  by_cases hy : y = 0
+  · simp [hy]
+  · by_cases hz : z = 0
+    · simp [hz, hy]
+    · have : y * z ≠ 0 := by grind
+      simp [hy, hz, this]
+      grind
+
+/-- the pre-reducing operator of `sub_` / `div_` -/
+def Op.pre : Op → Op
+  | .sub => .add
+  | .div => .mul
+  | o => o
+
+theorem appO_op_pre (op : Op) (hop : op = .sub ∨ op = .div) (a y z : Option Rat) :
+    op.appO a (op.pre.appO y z) = op.appO (op.appO a y) z := by
+  rcases hop with rfl | rfl
+  · exact appO_sub_add a y z
+  · exact appO_div_mul a y z
+
+theorem foldl_pre_right {α : Type} (op : Op) (hop : op = .sub ∨ op = .div) (val : α → Option Rat) (ys : List α) (a y : Option Rat) :
+    op.appO a (ys.foldl (fun v s => op.pre.appO v (val s)) y) = ys.foldl (fun v s => op.appO v (val s)) (op.appO a y) := by
+  induction ys generalizing a y with
+  | nil => rfl
+  | cons z zs ih => simp only [List.foldl_cons]; rw [ih, appO_op_pre op hop]
+
 end Pyg.Ops
